@@ -145,12 +145,12 @@ var c14Variants = map[string][][]string{
 	"delete":     {{"3..22"}, {"-e", "3..22"}, {"3..12"}, {"3..13"}, {"-e", "3..12"}, {"gene"}, {"-e", "gene"}, {"CDS@^..^+3"}, {"-F", "fasta", "3..12"}},
 	"extract":    {{"gene"}, {"-v", "gene"}, {"CDS"}, {"gene", "CDS"}, {"CDS", "gene"}, {"gene CDS"}, {"-v", "gene", "CDS"}, {"-v", "gene", "misc_feature"}, {"gene", "gene"}, {"misc_feature", "CDS", "gene"}, {"gene", "CDS", "misc_feature"}, {}, {"-v"}, {"-F", "fasta", "gene"}, {"3..12"}, {"-v", "3..12"}},
 	"infix":      {{"10", "{host.gb}"}, {"11", "{host.gb}"}, {"10", "{host2.gb}"}, {"10", "{host3.gb}"}, {"-e", "10", "{host.gb}"}, {"-F", "fasta", "10", "{host.gb}"}},
-	"insert":     {{"10", "{guest.gb}"}, {"11", "{guest.gb}"}, {"10", "{guest2.gb}"}, {"10", "{guest3.gb}"}, {"10", "{guest.fasta}"}, {"10", "{guest2.fasta}"}, {"10", "@ggttcc"}, {"10", "@ggttca"}, {"-e", "10", "{guest.gb}"}, {"-F", "fasta", "10", "{guest.gb}"}, {"gene", "{guest.fasta}"}},
+	"insert":     {{"10", "{guest.gb}"}, {"11", "{guest.gb}"}, {"10", "{guest2.gb}"}, {"10", "{guest3.gb}"}, {"10", "{guest.fasta}"}, {"10", "{guest2.fasta}"}, {"10", "@ggttcc"}, {"10", "@ggttca"}, {"10", "{litguest.txt}"}, {"-e", "10", "{guest.gb}"}, {"-F", "fasta", "10", "{guest.gb}"}, {"gene", "{guest.fasta}"}},
 	"join":       {{}, {"-c"}, {"-F", "fasta"}},
 	"pick":       {{"1"}, {"2"}, {"1,2"}, {"2,1"}, {"1-2"}, {"-f", "1"}, {"-f", "2"}, {"-F", "fasta", "1"}},
 	"query":      {{}, {"-n", "gene"}, {"-n", "product"}, {"-n", "gene", "-n", "product"}, {"-n", "product", "-n", "gene"}, {"-n", "gene product"}, {"-d", ","}, {"-d", ", "}, {"-t", "; "}, {"-t", ";"}, {"-H"}, {"--source"}, {"-I"}, {"-K"}, {"-L"}, {"--empty"}, {"--empty", "-n", "product"}},
 	"rotate":     {{"10"}, {"11"}, {"gene"}, {"^+5"}, {"-F", "fasta", "10"}},
-	"search":     {{"@cctaa"}, {"--no-complement", "@cctaa"}, {"@ccyta"}, {"-e", "@ccyta"}, {"@cctta"}, {"@cgcac"}, {"{query.fasta}"}, {"{query2.fasta}"}, {"-k", "primer_bind", "@cctta"}, {"-q", "note=hit", "@cctta"}, {"-q", "note=hit", "-q", "label=x", "@cctta"}, {"-q", "label=x", "-q", "note=hit", "@cctta"}, {"-q", "note=hit label=x", "@cctta"}, {"-q", "note=hit", "-q", "label=x", "-k", "misc_feature", "@cctta"}, {"-e", "@cctta"}, {"--no-complement", "@cctta"}, {"-F", "fasta", "@cctta"}},
+	"search":     {{"@cctaa"}, {"--no-complement", "@cctaa"}, {"@ccyta"}, {"-e", "@ccyta"}, {"@cctta"}, {"@cgcac"}, {"{query.fasta}"}, {"{query2.fasta}"}, {"{litquery.txt}"}, {"-k", "primer_bind", "@cctta"}, {"-q", "note=hit", "@cctta"}, {"-q", "note=hit", "-q", "label=x", "@cctta"}, {"-q", "label=x", "-q", "note=hit", "@cctta"}, {"-q", "note=hit label=x", "@cctta"}, {"-q", "note=hit", "-q", "label=x", "-k", "misc_feature", "@cctta"}, {"-e", "@cctta"}, {"--no-complement", "@cctta"}, {"-F", "fasta", "@cctta"}},
 	"select":     {{"gene"}, {"CDS"}, {"gene", "CDS"}, {"CDS", "gene"}, {"gene CDS"}, {"[gene CDS]"}, {"-v", "gene"}, {"-v", "gene", "CDS"}, {"-s", "forward", "gene"}, {"-s", "reverse", "gene"}, {"/gene=alpha"}, {"-F", "fasta", "gene"}},
 	"sort":       {{}, {"-r"}, {"-F", "fasta"}},
 	"split":      {{"10"}, {"11"}, {"gene"}, {"CDS@^"}, {"-F", "fasta", "10"}},
